@@ -16,13 +16,18 @@ fn str_lit(s: &str) -> String {
 
 fn arg_src(bytes: &[u8], align: usize, form: &str) -> String {
     match form {
-        "bits" => {
+        "bits" | "ownbits" => {
             // a slice starting at bit `align` of a parent: | fill bits | payload | via open-bitstr / bits
             let mut bits = String::from("|");
             for _ in 0..align { bits.push('x'); }
             for b in bytes { for i in (0..8).rev() { bits.push(if (b >> i) & 1 == 1 { 'x' } else { '.' }); } }
             bits.push_str("x|");
-            format!("{} open-bitstr {} bits drop {} bits close-bitstr", bits, align, bytes.len() * 8)
+            if form == "ownbits" {
+                // inverted twice: a buffer computed at run time that nothing else refers to once the cursor is closed
+                format!("{} bitstr-not bitstr-not open-bitstr {} bits drop {} bits close-bitstr", bits, align, bytes.len() * 8)
+            } else {
+                format!("{} open-bitstr {} bits drop {} bits close-bitstr", bits, align, bytes.len() * 8)
+            }
         }
         "list" => format!("[ {} ]", bytes.iter().map(|b| b.to_string()).collect::<Vec<_>>().join(" ")),
         "nested" => {
